@@ -401,6 +401,7 @@ class SimDevice(object):
         self.held_streams = []
         self.every_stream = []       # all streams of all sessions of this device object
         self.hold_next_open = False
+        self.frozen = set()          # local ids whose output is withheld until explicitly released
         self.budget = None           # number of packets the device may still send before it falls silent (C11)
         self.syms_of = None          # callable(payload) -> list of symbol codes (model-scale scenarios)
 
@@ -522,6 +523,8 @@ class SimDevice(object):
         out = []
         for st in self.all_streams:
             if st.lid in self.hold and st in self.held_streams:
+                continue
+            if st.lid in self.frozen:
                 continue
             if st.acks:
                 out.append((st.lid, 'ack', id(st)))
